@@ -18,7 +18,7 @@ PKG = 'onsager'
 # other check reads the tree as written, which is what its rules and its confirmed instance counts refer to.  Feeding a
 # rule a tree form it was not written for makes its anchors vanish (false alarms / floors not met), so the form is part of
 # the rule, declared here per property, and never a global switch.
-NORMAL_FORM_PROPS = frozenset(['C01', 'C02', 'C04', 'C06'])
+NORMAL_FORM_PROPS = frozenset(['C01', 'C02', 'C04', 'C06', 'C15'])
 FORMS = ('raw', 'normal')
 _NORM_CACHE = {}
 
@@ -261,6 +261,15 @@ class Model:
                         self.scripts[fn[:-3]] = Module(fn[:-3], os.path.join(bindir, fn), rel, self.read(rel), form)
                     except AnalysisError:
                         pass
+
+    def normal(self):
+        """the same tree (same checkout, same overrides) in the normal form: lets a check that reads the tree as written
+        evaluate single rules on the normal form of a function (rule-by-rule porting)."""
+        if self.form == 'normal':
+            return self
+        if getattr(self, '_normal', None) is None:
+            self._normal = Model(self.repo, self.overrides, form='normal')
+        return self._normal
 
     def read(self, rel):
         if rel in self.overrides:
